@@ -1291,7 +1291,7 @@ def compile_jacobian(
             scale, _ = pattern
 
             def scaled_variable_jacobian_fn(x):
-                return (scale * x).reshape(1, -1)
+                return _sanitize_derivatives(scale * x).reshape(1, -1)
 
             return scaled_variable_jacobian_fn
 
@@ -1437,7 +1437,7 @@ def compile_hessian(
             if is_full:
 
                 def hess_exp(x):
-                    return np.diag(np.exp(x))
+                    return np.diag(_sanitize_derivatives(np.exp(x)))
 
                 return hess_exp
             else:
@@ -1445,7 +1445,7 @@ def compile_hessian(
                 def hess_exp_sparse(x):
                     result = np.zeros((n, n))
                     result[indices, indices] = np.exp(x[indices])
-                    return result
+                    return _sanitize_derivatives(result)
 
                 return hess_exp_sparse
 
